@@ -3326,6 +3326,9 @@ def to_nx(
     for root in roots:
         if abs(root) not in bdd:
             raise ValueError(root)
+        # already added, from another root ?
+        if abs(root) in g:
+            continue
         Q = {root}
         while Q:
             u = Q.pop()
